@@ -55,7 +55,7 @@ structure Node where
   obs : List (Key × Obs)
   tfc : List Key                 -- sorted, duplicate-free
   pendingBP : Option Nat
-  /-- the last run ended inside an SCC (not stored by the code; used by the candidate repair `f22`) -/
+  /-- the last run ended inside an SCC (not stored by the code; used by the candidate repair `f32`) -/
   sccRun : Bool := false
   deriving Repr
 
@@ -100,19 +100,23 @@ structure Toggles where
       (the code discards it with `let _ =` and compares fingerprints of a callee that is still
       computing, so a node that has just been found to lie on a cycle is cleaned with its old value). -/
   f16 : Bool := false
-  /-- F21: a node that was marked in an SCC while it was being *repaired* (a callee it re-verified
+  /-- F31: a node that was marked in an SCC while it was being *repaired* (a callee it re-verified
       closed a cycle through it) keeps the callees registered during the repair when it is re-executed
       (the code clears them, and the re-execution is aborted right after its first read because the
       mark is still set: the dependency on the callee that closed the cycle is lost and later changes
       below it never reach the node). -/
-  f21 : Bool := false
-  /-- candidate repair F22 (needs one more stored bit): a node whose last run ended inside an SCC is
+  f31 : Bool := false
+  /-- candidate repair F32 (needs one more stored bit): a node whose last run ended inside an SCC is
       never cleaned — repairing it always re-executes it, so that the members of a former cycle are
       re-evaluated together instead of one of them being re-run against the others' stale defaults. -/
-  f22 : Bool := false
+  f32 : Bool := false
   /-- not a finding: the code walks transitive-firewall-callee sets and backward-projection sets in
       hash-set order; the model walks them in ascending key order, or descending with this switch -/
   desc : Bool := false
+  /-- not a finding: an ORDER TAPE for the same two walks.  The k-th walk over a set of ≥ 2 elements
+      takes the `(tape[k] % n!)`-th permutation (Lehmer-code order; 0 = ascending) of the set.  With
+      an empty tape the behaviour is as described for `desc`. -/
+  tape : List Nat := []
   deriving Repr
 
 structure St where
@@ -130,6 +134,8 @@ structure St where
   dirtiedEdges : Nat := 0              -- statistic
   /-- number of times a set of ≥ 2 elements was walked in an order the code does not fix -/
   choicePoints : Nat := 0
+  /-- position on the order tape (`Toggles.tape`) -/
+  tapePos : Nat := 0
   deriving Repr
 
 /-- State is kept when an error is raised: a Rust panic unwinds through drop guards that see (and
@@ -276,6 +282,36 @@ def checkCyclic : Nat → Key → Key → M Bool
             found := found || f
         if found then modifyComp k fun c => { c with inScc := true }
         pure found
+
+-- ------------------------------------------------------------------ order of hash-set walks
+
+def factorial : Nat → Nat
+  | 0 => 1
+  | n + 1 => (n + 1) * factorial n
+
+/-- the `r`-th permutation of `l` in Lehmer-code order (`r < l.length!`; 0 = `l` itself) -/
+def nthPerm : Nat → Nat → List Key → List Key
+  | 0, _, l => l
+  | fuel + 1, r, l =>
+    match l with
+    | [] => []
+    | _ =>
+      let f := factorial (l.length - 1)
+      let i := r / f
+      match l[i]? with
+      | some x => x :: nthPerm fuel (r % f) (l.eraseIdx i)
+      | none => l
+
+/-- The code walks this set in hash-set order.  Sets of ≥ 2 elements are choice points: the order is
+    read from the tape (ascending when the tape has no entry left; with an empty tape: ascending, or
+    descending under `desc`). -/
+def permuteChoice (t : Toggles) (l : List Key) : M (List Key) := do
+  if l.length < 2 then return l
+  let s ← get
+  let r := (t.tape[s.tapePos]?).getD 0
+  set { s with choicePoints := s.choicePoints + 1, tapePos := s.tapePos + 1 }
+  if t.tape.isEmpty then return (if t.desc then l.reverse else l)
+  return nthPerm l.length (r % factorial l.length) l
 
 -- ------------------------------------------------------------------ dirty propagation
 
@@ -448,8 +484,7 @@ def repairTfc (t : Toggles) (p : Program) : Nat → Key → M Unit
     let n ← match (← getNode k) with
       | some n => pure n
       | none => throwE (.panic "repair_transitive_firewall_callees: node_info unwrap")
-    if n.tfc.length ≥ 2 then modify fun s => { s with choicePoints := s.choicePoints + 1 }
-    for f in (if t.desc then n.tfc.reverse else n.tfc) do
+    for f in (← permuteChoice t n.tfc) do
       let _ ← queryFor t p fuel f .repairFirewall
 
 /-- `invoke_backward_projections` + `done_backward_projection` -/
@@ -460,8 +495,7 @@ def invokeBackwardProjections (t : Toggles) (p : Program) : Nat → Key → M Un
     let mut projs : List Key := []
     for c in callers do
       if (← storedKind c) == .projection then projs := projs ++ [c]
-    if projs.length ≥ 2 then modify fun s => { s with choicePoints := s.choicePoints + 1 }
-    for pj in (if t.desc then projs.reverse else projs) do
+    for pj in (← permuteChoice t projs) do
       let _ ← queryFor t p fuel pj .bpp
     let n ← nodeInfoUnchecked k
     setNode k { n with pendingBP := none }
@@ -502,7 +536,7 @@ def repairQuery (t : Toggles) (p : Program) : Nat → Key → Caller → M Unit
       let pedantic := match caller with
         | .query _ _ ped => ped
         | _ => false
-      let mut recompute := t.f22 && n.sccRun
+      let mut recompute := t.f32 && n.sccRun
       let mut needTfc := false
       let mut cleaned : List Key := []
       for dep in n.fwd do
@@ -535,7 +569,7 @@ def repairQuery (t : Toggles) (p : Program) : Nat → Key → Caller → M Unit
               if add then cleaned := cleaned ++ [callee]
               if rt then needTfc := true
       if recompute then
-        let keep := t.f21 && ((findComp k (← get).computing).map (·.inScc)).getD false
+        let keep := t.f31 && ((findComp k (← get).computing).map (·.inScc)).getD false
         if !keep then
           modifyComp k fun c => { c with callees := [], order := [], unorderedMode := false }
         executeQuery t p fuel k true caller
